@@ -332,7 +332,14 @@ func clip(s string) string {
 	return string(out)
 }
 
+// wideHung: cases in which a request had to be released by ending its context; every such request costs the watchdog
+var wideHung = 0
+
 func kindWide(variant uint64, o *obs) {
+	if wideHung >= 2 {
+		o.skipped++
+		return
+	}
 	wideSetup()
 	type q struct{ obj, rel, user string }
 	qs := [][]q{
@@ -343,7 +350,7 @@ func kindWide(variant uint64, o *obs) {
 	}[int(variant)%4]
 	for _, x := range qs {
 		x := x
-		for rep := 0; rep < 3; rep++ { // the planner samples the strategy: give each its turn
+		for rep := 0; rep < 3 && len(o.slow) == 0; rep++ { // the planner samples the strategy: give each its turn
 			o.doNoDeadline("Check["+x.obj+"#"+x.rel+"]", func(ctx context.Context) error {
 				resp, err := wideSrv.Check(ctx, &openfgav1.CheckRequest{StoreId: wideStore,
 					TupleKey: &openfgav1.CheckRequestTupleKey{Object: x.obj, Relation: x.rel, User: x.user}})
@@ -353,6 +360,10 @@ func kindWide(variant uint64, o *obs) {
 				return err
 			})
 		}
+	}
+	if len(o.slow) > 0 {
+		wideHung++
+		return
 	}
 	if variant%4 == 3 {
 		o.doNoDeadline("BatchCheck[wide]", func(ctx context.Context) error {
